@@ -263,6 +263,54 @@ def _(c):
         lambda fx: awaits_of(fx)[-1][1] == "future" and awaits_of(fx)[-1][2] == "result",
     )
     c.ensures("post.returns_the_collected_list", lambda result: isinstance(result, list))
+    # "... and none received before it was issued": nothing can be delivered between the registration of the collecting
+    # callback and the moment the command is handed over -- there is no suspension point in between
+    c.at_effect(
+        "ezsp.command", "no_suspension_between_registration_and_issue",
+        lambda fx: [r for r in fx[[i for i, q in enumerate(fx) if q[0] == "ret" and q[1] == "ezsp.add_callback"][0]:] if r[0] == "await"] == [],
+    )
+
+
+# ---- the collecting callback itself (a closure of _list_command): "A scan returns, in order, every result callback
+# received between issuing it and its completion callback".  `results` is only ever touched by this closure (it is a
+# local of _list_command, returned at the end); the closure is proved for an arbitrary content of the list so far:
+# a result frame appends exactly its response at the end, the completion frame completes the waiter with its response
+# and leaves the list alone, any other frame does nothing.  With registration-before-issue, no suspension between
+# registration and issue, and removal on every exit (above), the returned list is the sequence of result responses
+# delivered while the operation ran, in arrival order.
+@contract("bellows.ezsp.EZSP._list_command.cb", props=["C17"])
+def _(c):
+    c.closure("results", T.any_list())
+    c.closure("fut", T.future(pending=True, promise=SCAN_DONE_PROMISE))
+    c.closure("item_frames", T.const(["energyScanResultHandler", "networkFoundHandler"]))
+    c.closure("completion_frame", T.const("scanCompleteHandler"))
+    c.arg("response", T.opaque)
+    c.cases(
+        ("a result frame", {"frame_name": T.const("networkFoundHandler")}),
+        ("the other result frame", {"frame_name": T.const("energyScanResultHandler")}),
+        ("the completion frame", {"frame_name": T.const("scanCompleteHandler")}),
+        ("an unrelated frame", {"frame_name": T.const("stackStatusHandler")}),
+    )
+    c.let("results0", lambda results: results.copy())
+    c.ensures(
+        "post.result_frames_are_appended_in_arrival_order",
+        lambda frame_name, response, results, results0, item_frames, fx: implies(
+            frame_name in item_frames, results == results0 + [response] and results_set(fx) == []
+        ),
+    )
+    c.ensures(
+        "post.completion_frame_completes_the_waiter",
+        lambda frame_name, response, results, results0, completion_frame, item_frames, fut, fx: implies(
+            frame_name == completion_frame and frame_name not in item_frames,
+            results == results0 and len(results_set(fx)) == 1 and results_set(fx)[0][1] is fut and results_set(fx)[0][2] is response,
+        ),
+    )
+    c.ensures(
+        "post.other_frames_are_ignored",
+        lambda frame_name, results, results0, completion_frame, item_frames, fx: implies(
+            frame_name != completion_frame and frame_name not in item_frames, results == results0 and results_set(fx) == []
+        ),
+    )
 
 
 # ---------------------------------------------------------------------------
